@@ -3,8 +3,12 @@ C36 — model of /repo/telegram/message/entity/fix.go: `entitySorter.Less`, `Sor
 
 The comparator is NOT written here: `Facts.C36.less` is regenerated on every run from the
 boolean expression in the source.  `sort.Sort` is not modelled; its contract for a comparator
-is `SortContract` below (output is a permutation of the input and has no adjacent inversion),
-and `isort` is one executable function satisfying it (used by the driver).
+is `SortContract` below (output is a permutation of the input and has no adjacent inversion) —
+which `sort.Sort` guarantees only when the comparator is a strict weak order.  `isort` is one
+executable function meeting the contract when it can be met (used by the driver).
+
+Defect D8 (open, see known_findings/C36.json): the source's comparator is `lessOld` below, which
+is not a strict weak order.  `specLess` is the specification's comparator (TDLib's order).
 -/
 import TdModel.Gen.C36
 
@@ -19,11 +23,13 @@ structure Ent where
 /-- `entitySorter.Less(i, j)` for `a = e[i]`, `b = e[j]` — the regenerated expression. -/
 def less (a b : Ent) : Bool := Facts.C36.less a.off a.len b.off b.len
 
-/-- The comparator of the pinned tree (before the `fix:` commit for D8), kept for the
-counterexample: `a.off < b.off || a.len > b.len`. -/
+/-- The comparator of the pinned tree, written out: `a.off < b.off || a.len > b.len`. -/
 def lessOld (a b : Ent) : Bool := decide (a.off < b.off) || decide (a.len > b.len)
 
-/-- The specification's order (TDLib): offset ascending, for equal offsets length descending. -/
+/-- The specification's comparator: offset ascending, for equal offsets length descending. -/
+def specLess (a b : Ent) : Bool := decide (a.off < b.off) || (decide (a.off = b.off) && decide (a.len > b.len))
+
+/-- The specification's order on adjacent/any two positions of the result. -/
 def Ordered (a b : Ent) : Prop := a.off < b.off ∨ (a.off = b.off ∧ b.len ≤ a.len)
 
 instance (a b : Ent) : Decidable (Ordered a b) := by unfold Ordered; infer_instance
@@ -34,11 +40,25 @@ def AdjSorted {α} (r : α → α → Prop) : List α → Prop
   | [_] => True
   | a :: b :: t => r a b ∧ AdjSorted r (b :: t)
 
-/-- What `sort.Sort` promises for the comparator `lt`: a permutation of the input in which no
-element is `lt` its predecessor.  (For a strict weak order this is "sorted"; for anything else
-it promises nothing useful, which is why `less_strict_weak_order` is part of the property.) -/
+/-- What `sort.Sort` promises for a strict weak order `lt`: a permutation of the input in which
+no element is `lt` its predecessor. -/
 def SortContract (lt : Ent → Ent → Bool) (sort : List Ent → List Ent) : Prop :=
   ∀ l, (sort l).Perm l ∧ AdjSorted (fun a b => lt b a = false) (sort l)
+
+/-- A strict weak order on the elements of `l`: irreflexive, transitive, and incomparability is
+transitive (the precondition of `sort.Sort` for sorting `l`). -/
+def StrictWeakOrderOn (lt : Ent → Ent → Bool) (l : List Ent) : Prop :=
+  (∀ a ∈ l, lt a a = false) ∧
+  (∀ a ∈ l, ∀ b ∈ l, ∀ c ∈ l, lt a b = true → lt b c = true → lt a c = true) ∧
+  (∀ a ∈ l, ∀ b ∈ l, ∀ c ∈ l, lt a b = false → lt b a = false → lt b c = false → lt c b = false →
+    lt a c = false ∧ lt c a = false)
+
+/-- Lists on which ascending-offset order and descending-length order never contradict each other:
+no entity starts later than another one *and* is longer.  (E.g. all lengths equal, or properly
+nested spans.)  On these the pinned comparator coincides with the specification's. -/
+def Compatible (l : List Ent) : Prop := ∀ a ∈ l, ∀ b ∈ l, b.off < a.off → a.len ≤ b.len
+
+def compatible (l : List Ent) : Bool := l.all fun a => l.all fun b => !(decide (b.off < a.off)) || decide (a.len ≤ b.len)
 
 /-- Insert before the first element that `x` is less than (stable insertion). -/
 def insert (lt : Ent → Ent → Bool) (x : Ent) : List Ent → List Ent
